@@ -338,6 +338,7 @@ static void nbody_derivatives(struct reb_ode* ode, double* const yDot, const dou
 
 
 void reb_integrator_bs_part1(struct reb_simulation* r){
+    r->gravity_ignore_terms = 0; // WHFast/SABA/EOS leave 1 or 2 behind; BS needs all pair terms
     if (r->calculate_megno){
         reb_simulation_error(r, "The BS integrator does currently not support MEGNO.");
     }
